@@ -78,4 +78,16 @@ PROPS = {
         "parts": [{"engine": "front", "test": "TestProp_C12_Ingress", "quick": 2500, "thorough": 200000},
                   {"engine": "front", "test": "TestProp_C12_RateLimit", "quick": 2500, "thorough": 200000}],
     },
+    "C15": {
+        "rule": "one fixed route set (pull, single/multi-target deliver, publish off, publish.direct off, managed route, outbound) under generated "
+                "queue_limits / max_body / publish_policy; pre-filled queue (incl. near-full and colliding ids); global or endpoint-scoped path; audit headers "
+                "present/absent; batches of 1-12 items with 0-2 positions made invalid by a drawn kind (20 kinds: unknown/relative/empty/managed route, "
+                "selector hints, target not allowed/ambiguous, publish disabled, payload max_body+1, bad base64, headers too large, invalid header "
+                "name/value, bad timestamps, blank id, duplicate id in batch incl. padded, id already queued) or a batch larger than the remaining depth; "
+                "oracle: all valid => 200, exactly those n messages stored with the given shape; otherwise non-2xx with code, item_index among the offending "
+                "positions, queue unchanged; non-trivial = batch >=3 with the first invalid item at position >=1, or an overflow with free capacity left",
+        "assumptions": [SAMPLED, POSTGRES],
+        "guards": ["accepted", "refused", "status-409", "status-413", "status-503"],
+        "parts": [{"engine": "front", "test": "TestProp_C15_Publish", "quick": 3000, "thorough": 250000}],
+    },
 }
